@@ -11,9 +11,11 @@ for seed in range(int(sys.argv[1]), int(sys.argv[2])):
     for cls in sorted(vectors, key=sweep.qualname):
         name = sweep.qualname(cls)
         for v in vectors[cls]:
-            for k, b in enumerate([v] + [sweep.mutate(rng, v) for _ in range(100)]):
+            extras = rt.extra_vectors(name, rng, 20)
+            cands = [(v, 'orig')] + [(b, 'orig') for b in extras] + [(sweep.mutate(rng, v), 'mut') for _ in range(100)]
+            for b, kind in cands:
                 for pred, detail in rt.roundtrip_failures(cls, b):
-                    key = '%s/%s/%s' % (family(name), pred, 'orig' if k == 0 else 'mut')
+                    key = rt.finding_key(family(name), name, pred, kind, b)
                     if key not in seen:
                         seen[key] = {'class': name, 'input': b.hex(), 'detail': detail}
 json.dump(seen, open('/tmp/rt_keys_%s.json' % sys.argv[1], 'w'), indent=1)
